@@ -42,6 +42,9 @@ type World struct {
 	// backend connection; it may spawn a daemon thread that plays the host.
 	OnBackend func(b *Backend)
 	Handlers  []*HandlerRun
+	// Segmented: client connections deliver one write per read (TCP may do that
+	// as well as coalescing; some interleavings only exist this way)
+	Segmented bool
 }
 
 // NewWorld installs a fresh network.
@@ -228,7 +231,7 @@ type HandlerRun struct {
 // returns without having hijacked the connection, the server side closes it
 // (the harness speaks one request per connection).
 func (w *World) Serve(name string, h http.Handler, method string, hdr http.Header, remoteAddr string, id identity.Identity) *HandlerRun {
-	cl, srv := vnet.NewPipe(name+":client", name+":gw", true)
+	cl, srv := vnet.NewPipe(name+":client", name+":gw", !w.Segmented)
 	srv.SetAddrs("10.9.9.9:443", remoteAddr)
 	r, _ := http.NewRequest("GET", "http://gw.example/remoteDesktopGateway/", nil)
 	r.Method = method
@@ -530,9 +533,12 @@ func (w *World) OpenTunnel(kind string, h http.Handler, gw *protocol.Gateway, co
 			// the caller ends the tunnel before the first byte on the inbound channel
 			return c, true
 		}
-		// the preamble the gateway drains with one read before it starts parsing chunks
+		// the preamble the gateway drains with one read before it starts parsing chunks:
+		// wait until this connection's preamble was consumed (not for global quiescence,
+		// which would serialise concurrent clients)
 		c.In.Write([]byte("preamble"))
-		vsched.WaitIdle()
+		inConn := c.In
+		vsched.Point("await-preamble-drained", func() bool { return inConn.PeerDrained() || !vsched.Active() })
 		return c, true
 	}
 	panic("unknown transport kind " + kind)
